@@ -20,6 +20,7 @@ from odl.set.space import LinearSpace
 from .. import cover, sanitize, util
 
 SHARDS = {'quick': 4, 'thorough': 16}
+THOROUGH_ROUNDS = 3
 
 
 def _flat(sp, x):
@@ -619,6 +620,138 @@ def run_api(ctx, con):
                     ctx.violation(comp, cfg, 'operand-modified', which='y')
 
 
+def _raw_of(sp, y, variant):
+    """The value of element ``y`` as a raw (non-element) operand: ndarrays with exactly the leaf dtype and shape
+    (``element()`` wraps those without copying), ndarrays of another dtype, or nested lists."""
+    if util.is_pspace(sp):
+        return [_raw_of(s, p, variant) for s, p in zip(sp, y.parts)]
+    a = np.array(np.asarray(y), copy=True, order='C')
+    if variant == 'same':
+        return a
+    if variant == 'otherdtype':
+        k = a.dtype.kind
+        return a.astype({'f': 'float32' if a.dtype == np.float64 else 'float64', 'c': 'complex64' if a.dtype == np.complex128 else 'complex128',
+                         'i': 'int16', 'u': 'uint8'}.get(k, a.dtype))
+    return a.tolist()
+
+
+def _raw_arrays(raw):
+    if isinstance(raw, np.ndarray):
+        yield raw
+    elif isinstance(raw, list):
+        for r in raw:
+            for a in _raw_arrays(r):
+                yield a
+
+
+def _raw_snapshot(raw):
+    import copy
+    return copy.deepcopy(raw)
+
+
+def _raw_equal(a, b):
+    if isinstance(a, np.ndarray):
+        return isinstance(b, np.ndarray) and a.dtype == b.dtype and np.array_equal(a, b, equal_nan=True)
+    if isinstance(a, list):
+        return isinstance(b, list) and len(a) == len(b) and all(_raw_equal(u, v) for u, v in zip(a, b))
+    return a == b
+
+
+RAW_OPS = [('x+raw', lambda x, r: x + r, lambda X, Y: X + Y, {}),
+           ('x-raw', lambda x, r: x - r, lambda X, Y: X - Y, {}),
+           ('x*raw', lambda x, r: x * r, lambda X, Y: X * Y, {}),
+           ('x/raw', lambda x, r: x / r, lambda X, Y: X / Y, {'div': True}),
+           ('raw+x', lambda x, r: r + x, lambda X, Y: Y + X, {}),
+           ('raw-x', lambda x, r: r - x, lambda X, Y: Y - X, {}),
+           ('raw*x', lambda x, r: r * x, lambda X, Y: Y * X, {}),
+           ('raw/x', lambda x, r: r / x, lambda X, Y: Y / X, {'div': True}),
+           ('x+=raw', lambda x, r: x.__iadd__(r), lambda X, Y: X + Y, {'inplace': True}),
+           ('x-=raw', lambda x, r: x.__isub__(r), lambda X, Y: X - Y, {'inplace': True}),
+           ('x*=raw', lambda x, r: x.__imul__(r), lambda X, Y: X * Y, {'inplace': True}),
+           ('x/=raw', lambda x, r: x.__itruediv__(r), lambda X, Y: X / Y, {'inplace': True, 'div': True}),
+           ('x.assign(element(raw))', lambda x, r: (x.assign(x.space.element(r)), x)[1], lambda X, Y: Y, {'inplace': True}),
+           ('lincomb(2,x,3,element(raw))', lambda x, r: x.space.lincomb(2, x, 3, x.space.element(r)), lambda X, Y: 2 * X + 3 * Y, {}),
+           ('multiply(x,element(raw))', lambda x, r: x.space.multiply(x, x.space.element(r)), lambda X, Y: X * Y, {})]
+
+
+def run_raw_operands(ctx):
+    """Arithmetic whose other operand is a raw array / list (converted by ``space.element``, which wraps without copying
+    when dtype and shape already match): the value is right, the caller's array is never written to and the result does
+    not share memory with it."""
+    rng = ctx.rng('raw')
+    idx = 0
+    for tag, sp in spaces_for_api(ctx):
+        kind, dt = _leaf_kind(sp)
+        n = sum(int(np.prod(l.shape)) for _p, l in util.leaves(sp))
+        for (name, fn, ref, fl), variant in itertools.product(RAW_OPS, ['same', 'otherdtype', 'list']):
+            if fl.get('div') and kind not in 'fc':
+                continue
+            if n >= 50000 and variant == 'list':
+                continue
+            idx += 1
+            if not ctx.mine(idx):
+                continue
+            x = rel(sp, rng, nozero=fl.get('div', False))
+            y = rel(sp, rng, nozero=fl.get('div', False))
+            raw = _raw_of(sp, y, variant)
+            if variant == 'otherdtype' and kind in 'iu':
+                # values are small integers: representable in the narrower type
+                pass
+            X = _flat(sp, x).copy()
+            Y = _flat(sp, sp.element(_raw_snapshot(raw))).copy()
+            before = _raw_snapshot(raw)
+            comp = 'api:' + name
+            cfg = '%s;%s;raw=%s' % (util.space_tag(sp), util.size_regime(n), variant)
+            ctx.case('raw;%s;%s' % (name, tag), variant)
+            try:
+                r = fn(x, raw)
+            except TypeError as e:
+                # an overload may legitimately not accept a raw operand (Python then raises TypeError): nothing to compare
+                ctx.ev('raw-operand')
+                ctx.skip('raw operand not accepted by this overload')
+                ctx.note_add('raw-not-accepted:%s:%s' % (name, 'pspace' if util.is_pspace(sp) else 'leaf'))
+                if not _raw_equal(raw, before):
+                    ctx.violation(comp, cfg, 'operand-modified', which='raw')
+                continue
+            except Exception as e:
+                ctx.ev('raw-operand')
+                ctx.violation(comp, cfg, 'raises:' + type(e).__name__, message=str(e)[:200])
+                continue
+            ctx.ev('raw-operand')
+            try:
+                if not _raw_equal(raw, before):
+                    ctx.violation(comp, cfg, 'operand-modified', which='raw')
+                if not fl.get('inplace') and not np.array_equal(_flat(sp, x), X, equal_nan=True):
+                    ctx.violation(comp, cfg, 'operand-modified', which='x')
+                try:
+                    got = _flat(sp, r if r in sp else sp.element(r))
+                except Exception:
+                    ctx.violation(comp, cfg, 'result-not-in-space')
+                    continue
+                with np.errstate(all='ignore'):
+                    if kind in 'fc':
+                        hi = _hi(kind)
+                        R = np.asarray(ref(X.astype(hi), Y.astype(hi)))
+                        if not np.isfinite(R.astype(complex)).all():
+                            ctx.skip('reference not finite')
+                            continue
+                        mag = np.abs(R) + (np.abs(X.astype(hi)) + np.abs(Y.astype(hi))) * (0 if fl.get('div') else 1)
+                        ok = _tol_ok(got, R, mag, dt, ulps=8)
+                    else:
+                        R = np.asarray(ref(X, Y))
+                        ok = bool(np.array_equal(got, R.astype(got.dtype)))
+                if not ok:
+                    ctx.violation(comp, cfg, 'wrong-value', got=got[:6])
+                if n > 0 and hasattr(r, 'space'):
+                    for ra in _raw_arrays(raw):
+                        for _q, lr in _leaf_arrays(r):
+                            if lr.size and ra.size and np.shares_memory(lr, ra):
+                                ctx.violation(comp, cfg, 'result-shares-memory-with-operand')
+            except Exception as e:
+                ctx.note_add('monitor-exception:' + type(e).__name__)
+    ctx.ev('raw-operand', 0)
+
+
 def _leaf_arrays(x):
     if hasattr(x, 'parts'):
         for i, p in enumerate(x.parts):
@@ -649,7 +782,8 @@ def run(ctx):
         pass
     run_lincomb_lattice(ctx, con)
     run_api(ctx, con)
-    if ctx.thorough and ctx.shard == 0:
+    run_raw_operands(ctx)
+    if ctx.thorough and ctx.shard == 0 and ctx.round == 0:
         # W-ambient: the contract on every lincomb / multiply / divide the repository's own suite executes
         from .c03 import ambient_suite
         data = ambient_suite(ctx, {'VF_AMBIENT_LINCOMB': '1'}, 'c01')
